@@ -110,6 +110,7 @@ package signature
 //@   ensures[unsigned-iff-not-listed] (forall k int :: 0 <= k && k < len(v.VerifiedSignedSubsets) ==> !has(v.VerifiedSignedSubsets[k].SignedSubset.SubsetHashes, e.Request.URL.String())) ==> res == nil && err == nil
 //@   ensures[verified-against-the-listing-subset] res != nil ==> exists k int :: 0 <= k && k < len(v.VerifiedSignedSubsets) && has(v.VerifiedSignedSubsets[k].SignedSubset.SubsetHashes, e.Request.URL.String()) && (forall j int :: 0 <= j && j < k ==> !has(v.VerifiedSignedSubsets[j].SignedSubset.SubsetHashes, e.Request.URL.String())) && res.Authority == v.VerifiedSignedSubsets[k].Authority && v.VerifiedSignedSubsets[k].SignedSubset.SubsetHashes[e.Request.URL.String()] != nil && len(v.VerifiedSignedSubsets[k].SignedSubset.SubsetHashes[e.Request.URL.String()].Hashes) == 1 && len(v.VerifiedSignedSubsets[k].SignedSubset.SubsetHashes[e.Request.URL.String()].VariantsValue) == 0
 //@   ensures[integrity-scheme] res != nil ==> (v.Version == version.VersionB1 || v.Version == version.VersionB2)
+//@   ensures[payload-is-the-decoders-output] res != nil ==> exists rd io.Reader, r io.Reader :: {miDecoderFor(rd, r, hdrGet(e.Response.Header, "Digest"), mice.Draft03Encoding)} miDecoderFor(rd, r, hdrGet(e.Response.Header, "Digest"), mice.Draft03Encoding) && send(r) == len(e.Response.Body) && (forall i int :: 0 <= i && i < len(e.Response.Body) ==> sdata(r)[i] == e.Response.Body[i]) && readAllOf(bytes(res.VerifiedPayload), rd)
 //@   assigns nothing
 
 // Signer side: sign() signs the message built from exactly the bytes it is
